@@ -287,6 +287,12 @@ def judge(spec, rec):
             # a constant named like the numbered-variable base name: no variable shadows it, it must be available
             uconst['a'] = 2.5
             params.append('a')
+            # ... and a constant named like an INSTANCE of the numbered variable: the instance used in the
+            # expressions is a variable drawn from the base name's set and shadows the constant
+            uconst['a_{12}'] = 100.0
+            if 'a_{12}' not in params:
+                params.insert(len(names), 'a_{12}')
+                allnum = sorted(set(allnum) | {'a_{12}'})
         cfg = dict(answers={'comparer_params': params, 'comparer': make_recorder(sink)}, variables=variables,
                    sample_from=sample_from, samples=spec['samples'], user_constants=uconst,
                    user_functions=X.USER_FUNCS, numbered_vars=['a'] if spec['numbered'] else [])
